@@ -7,7 +7,7 @@ LEVEL = "other"
 EXPLANATION = "Proved: every path of _eval_new_ctx that raises anything but the user's own exception has no user_call and no store_blob / sync_paths event and leaves blobs and paths unchanged; OVERLAPPING_PATH is raised exactly when non_terminal_leaves reports an overlap, and an evaluation with overlapping paths never reaches the first user call; a nested dds.eval is rejected with EVAL_IN_EVAL before anything runs. Frame clause on the real call graph: nothing reachable from the analysis entry points calls a store mutator, re-enters the evaluation API or applies a received callable. non_terminal_leaves itself (the overlap check): for every list of pairwise distinct paths, below a prefix and at the top level, the result is non-empty exactly when some path is a proper segment-prefix of another one (the root path included) -- loop invariant over the groups, the recursive call by its contract, sorted + groupby by their contract (distinct group keys only because the list is sorted by the grouping key), paths as an uninterpreted segment algebra."
 TRUSTED = TRUSTED_API + ["segment algebra of paths (ROOT, HEAD, TAIL) = what DDSPathUtils.split computes on the strings (string level: bounded check); contract of sorted(key=first) + itertools.groupby(first): groups partition the input, one group per key", "A-REC: induction on the length of the longest path for the recursive call of non_terminal_leaves"]
 ASSUMPTIONS = ["A-USER", "A-DET", "A-LOG", "A-FLOAT", "A-ALIAS"]
-LEVEL_TEXT = 'Deductive proof of the rejection-before-effects postconditions plus a call-graph effect analysis of the analysis stage; the prefix-overlap function is proved over a segment algebra of paths (its string-level splitting, and cycles / nested evaluations that are only reachable through name resolution, are bounded stand-ins), hence 'other'.'
+LEVEL_TEXT = 'Deductive proof of the rejection-before-effects postconditions plus a call-graph effect analysis of the analysis stage; the prefix-overlap function is proved over a segment algebra of paths (its string-level splitting, and cycles / nested evaluations that are only reachable through name resolution, are bounded stand-ins), hence other.'
 DESIGN_REF = "5 (C11)"
 _owner = owner("C11")
 
